@@ -29,9 +29,10 @@ META = {
             "loadBlockForward + recoverEndorsements over any parent-before-child order restore exactly the stored "
             "fields; C10_reload_equiv_partial - for any history and any placement of saves, load of the accumulated "
             "storage succeeds and yields the tip and every live block's persisted projection (status, payload ids, "
-            "containing endorsements, refcount, parent, height) as of the last save. PARTIAL: two premises about the "
-            "saved state are assumed, not proved for all reachable states (the height sort is a parent-before-child "
-            "order; the stored active chain is ACTIVE and fully valid so that loadTip changes nothing persisted), and "
+            "containing endorsements, refcount, parent, height) as of the last save. PARTIAL: premises about the "
+            "saved state are assumed, not proved for all reachable states (structural consistency of the stored block "
+            "set - from which the parent-before-child order of the height sort IS proved - and a stored active chain "
+            "that is ACTIVE and fully valid so that loadTip changes nothing persisted), and "
             "the rebuilt endorsedBy/block-of-proof lists are not described - those parts are checked by the direct "
             "oracle and by the model/implementation comparison of load. Direct oracle on the rebuilt "
             "library: for generated histories (forks, reorgs, invalid payloads, invalidate/revalidate, remove, "
